@@ -288,8 +288,15 @@ void h_sweep(void) {
 static void oracle_any(const vcfg *c, const uint8_t *f, size_t n) { (void)c; (void)f; (void)n; }
 
 void h_safety(void) {
+#ifdef FAULTS
+    common_setup(1);          /* symbolic fault schedule: i-th malloc / send fails iff flagged; getters fail under their own flags */
+#else
     common_setup(0);
+#endif
     g_class = CL_ANY;
+#ifdef FAULT_MTU
+    g_cfgA.mtu_fail = FAULT_MTU;      /* concrete: transmit buffers keep a constant size per query */
+#endif
 #ifdef HOSTLEN
     g_plat.hostname_len = HOSTLEN; g_cfgA.ssid_len = SSIDLEN;
 #endif
@@ -309,6 +316,18 @@ void h_safety(void) {
     parseFrame(RX, &g_cfgA);
     struct snap sn; snapshot_list(ST, &sn);
     assert_inv_snap(ST, &sn);
+    /* allocation ledger: receive buffer + record + one block per observation + cached icon; everything else released */
+    V_ASSERT(g_live_blocks == 2 + (long)sn.n + (ST->small_icon ? 1 : 0), "C18,C19: every buffer obtained while handling the frame is released unless it is part of the retained state (also when the platform fails)");
+    V_ASSERT(sn.n <= in.st.n + 1, "C19: at most one observation retained per frame");
+#ifdef SAFETY_CLASS
+    {
+        unsigned bound = (SAFETY_CLASS == 0 || SAFETY_CLASS == 6 || SAFETY_CLASS == 11) ? 1u : (SAFETY_CLASS == 2 ? (unsigned)EMIT_MAXD(g_cfgA.mtu) + 1u : 0u);
+#ifdef FAULTS
+        if (SAFETY_CLASS == 2 && g_cfgA.mtu_fail) bound = 0;
+#endif
+        V_ASSERT(g_nsend <= bound, "C02,C18: number of frames per request within the class bound (also under faults)");
+    }
+#endif
     V_WITNESS("h_safety end");
 }
 
